@@ -82,6 +82,11 @@ func (m c14mon) Check(s *sim.Sim, st *sim.Step) []*sim.Violation {
 		}
 		return vs
 	}
+	// a callback that does not end in a login leaves the session's authentication level alone: the half-auth
+	// mark of a remembered session is lifted by a completed login only
+	if rec.SessIn["halfauth"] != "" && rec.SessOut["halfauth"] == "" && rec.SessIn["uid"] != "" && rec.SessOut["uid"] == rec.SessIn["uid"] && !sim.SessPutAny(rec, "uid", rec.SessOut["uid"]) {
+		vs = append(vs, vio("C14", "callback-lifted-half-auth-without-a-login", "an OAuth2 callback that logged nobody in (session user still %q) removed the half-authentication mark of the remembered session", rec.SessOut["uid"]))
+	}
 	// the matching callback spends the state, whatever else happens
 	if rec.SessOut["oauth2_state"] == state {
 		vs = append(vs, vio("C14", fmt.Sprintf("matching-callback-did-not-spend-state|handler-error=%v|response-written=%v", rec.HandlerErr != "", rec.Wrote), "the callback matching the session's state left that state in the session (handler error %q, response written: %v, client state delivered: %v): a replayed callback will be accepted", trunc(rec.HandlerErr, 60), rec.Wrote, flushed(rec)))
@@ -341,6 +346,21 @@ var c14ParamsProfile = &sim.Profile{
 		return []*sim.Action{act("oauth_start", 0, -9, "", "provider", p), cb(0, 0), act("logout", 0, -9, ""),
 			act("oauth_start", 1, -9, "", "provider", p, "extraq", x), cb(1, 1), act("visit", 1, -9, "", "route", "/protected/bare"),
 			act("oauth_start", 2, -9, "", "provider", p, "extraq", "oauth2uid="+ids[0].UID+"&oauth2_uid="+ids[0].UID+"&pid=x"), cb(2, 1), act("visit", 2, -9, "", "route", "/protected/bare")}
+	}}, {Name: "declined-at-the-provider-in-a-remembered-session", F: func(s *sim.Sim) []*sim.Action {
+		if !s.RememberActive() || !s.Cfg.Has("auth") || len(s.Cfg.Providers) == 0 {
+			return nil
+		}
+		p := s.Cfg.Providers[s.R.Intn(len(s.Cfg.Providers))]
+		v := s.R.Intn(len(s.Accts))
+		decl := act("oauth_cb", 0, 0, "own", "provider", p)
+		decl.Cls2 = "error"
+		bad := act("oauth_cb", 0, 0, "own", "provider", p)
+		bad.Cls2 = "badcode"
+		// a local account, remembered; the session is lost and restored from the cookie (half-authenticated); the
+		// visitor starts an OAuth2 login and presses "deny" at the provider (or the code is refused)
+		return []*sim.Action{act("login", 0, v, "ok", "rm", "true"), act("dropsid", 0, -9, ""), act("visit", 0, -9, "", "route", "/public"),
+			act("oauth_start", 0, -9, "", "provider", p), decl, act("visit", 0, -9, "", "route", "/protected/full"),
+			act("oauth_start", 0, -9, "", "provider", p), bad, act("visit", 0, -9, "", "route", "/protected/full")}
 	}}},
 }
 
@@ -377,7 +397,7 @@ func init() {
 				// a second, directed history (generator of its own): start requests that carry pass-along parameters
 				// named like the provider's own answer fields
 				r2 := Rng(c.Seed, "C14-start-params", unit)
-				cfg2 := randomCfg(r2, "oauth2", "logout")
+				cfg2 := randomCfg(r2, "oauth2", "logout", "auth")
 				cfg2.TwoFA = nil
 				if s2, err := sim.New(cfg2, r2, sim.SeedOpt{Accounts: 2, Browsers: 3}); err == nil {
 					sim.RunHistory(s2, c14ParamsProfile, []sim.Monitor{c14mon{c.Stats}}, c.Stats, unit)
